@@ -82,6 +82,10 @@ struct FwdObs : public Observer {
     scalars = p.all_scalar_vars();
     if (ctx.selected_prop == "C14")
       mp = "C14";
+#ifdef VERIF_WRAPPED
+    if (ctx.selected_prop == "C13")
+      mp = "C13";
+#endif
   }
 
   BlockInv &inv(const label_t &l) {
@@ -214,15 +218,28 @@ void run_case(const uint8_t *data, size_t size, CaseCtx &ctx) {
   // ---- initial value ---------------------------------------------------------------
   std::vector<var_t> scalars = prog.all_scalar_vars();
   State sigma0;
-  for (auto &v : scalars)
+  for (auto &v : scalars) {
     sigma0.num[v] = v.get_type().is_bool() ? z_number((int64_t)(t.u8() & 1)) : z_number(t.small_int(6));
+#ifdef VERIF_WRAPPED
+    // machine integers: start near the signed/unsigned boundaries a third of the time
+    if (v.get_type().is_integer() && t.pick(3) == 2)
+      sigma0.num[v] = Interp::to_signed(z_number(t.i64_pool()), v.get_type().get_integer_bitwidth());
+#endif
+  }
   csts_t init_csts;
   unsigned ninit = t.pick(4); // 0 => init = top
   for (unsigned i = 0; i < ninit && !prog.ints.empty(); i++) {
     const var_t &x = prog.ints[t.pick((unsigned)prog.ints.size())];
     const var_t &y = prog.ints[t.pick((unsigned)prog.ints.size())];
     z_number slack((int64_t)t.pick(4));
-    switch (t.pick(4)) {
+    unsigned ik = t.pick(4);
+#ifdef VERIF_WRAPPED
+    // machine integers: no arithmetic inside conditions, constants within the width
+    slack = z_number(0);
+    if (ik == 3)
+      ik = 0;
+#endif
+    switch (ik) {
     case 0: init_csts += cst_t(lin_t(x) == lin_t(sigma0.num[x])); break;
     case 1: init_csts += cst_t(lin_t(x) <= lin_t(sigma0.num[x] + slack)); break;
     case 2: init_csts += cst_t(lin_t(x) >= lin_t(sigma0.num[x] - slack)); break;
@@ -272,7 +289,7 @@ void run_case(const uint8_t *data, size_t size, CaseCtx &ctx) {
   // ---- executions -------------------------------------------------------------------------
   FwdObs obs(a, ctx, prog);
   unsigned nexec = 4 + t.pick(9);
-  unsigned long_execs = 0, total_blocks = 0;
+  unsigned long_execs = 0, total_blocks = 0, wrapped_execs = 0;
   for (unsigned e = 0; e < nexec; e++) {
     State s;
     if (e == 0)
@@ -281,8 +298,13 @@ void run_case(const uint8_t *data, size_t size, CaseCtx &ctx) {
       // perturb sigma0; keep only states described by the initial value
       s = sigma0;
       for (auto &v : scalars)
-        if (t.pick(3) == 0)
+        if (t.pick(3) == 0) {
           s.num[v] = v.get_type().is_bool() ? z_number((int64_t)(t.u8() & 1)) : z_number(t.small_int(10));
+#ifdef VERIF_WRAPPED
+          if (v.get_type().is_integer() && t.flag())
+            s.num[v] = Interp::to_signed(z_number(t.i64_pool()), v.get_type().get_integer_bitwidth());
+#endif
+        }
       bool ok = true;
       for (auto &c : init_csts) {
         bool def;
@@ -296,7 +318,15 @@ void run_case(const uint8_t *data, size_t size, CaseCtx &ctx) {
     in.obs = &obs;
     if (INT64_WEIGHTS)
       in.big_chance = 0;
+#ifdef VERIF_WRAPPED
+    in.machine_ints = true;
+    in.big_chance = 96;
+    for (auto &kv : s.num)
+      kv.second = in.wrapv(kv.second, kv.first);
+    in.wrap_events = 0;
+#endif
     Stop why = in.run(cfg, cfg.entry(), s);
+    wrapped_execs += in.wrap_events ? 1 : 0;
     total_blocks += in.path.size();
     if (in.path.size() >= 3)
       long_execs++;
@@ -338,7 +368,11 @@ void run_case(const uint8_t *data, size_t size, CaseCtx &ctx) {
     R().cls("program_with_checked_array_load");
   if (obs.symbolic_loads)
     R().cls("program_with_checked_symbolic_load");
-  if (ctx.selected_prop == "C14")
+  if (wrapped_execs)
+    R().cls("program_with_wrapping_execution");
+  if (ctx.selected_prop == "C13")
+    ctx.nontrivial = c01_nt && wrapped_execs > 0;
+  else if (ctx.selected_prop == "C14")
     ctx.nontrivial = obs.loads_checked > 0 && (obs.symbolic_loads > 0 || prog.n_loops > 0 || prog.n_ifs > 0 || !prog.structured);
   else if (ctx.selected_prop == "C02")
     ctx.nontrivial = c02_nt;
